@@ -38,6 +38,7 @@ class RecIndex:
 
     def __init__(self, fail_at=None, exc=RuntimeError):
         self.adds = []
+        self.slots = []
         self.attempts = 0
         self.fail_at = fail_at
         self.exc = exc
@@ -47,6 +48,7 @@ class RecIndex:
         if self.fail_at is not None and self.attempts == self.fail_at:
             raise self.exc("scripted index failure")
         self.adds.append(copy.deepcopy(ep))
+        self.slots.append(self.attempts - 1)  # which of the offered entries this one was
 
     def index_version(self):
         return len(self.adds)
@@ -75,7 +77,7 @@ def gen_case(rng):
         cfg["t3"]["dialogue"] = {"template": tpl, "include_top_k_snippets": 3}
     cfg["t3"]["tokens"] = rng.choice([1, 16, 256, 512])
     fault = rng.choice([None, None, None, "reflect-raises", "index-add-raises", "telemetry-raises", "timeout", "fixture-missing", "fixture-empty-file",
-                        "fixture-corrupt", "fixture-miss", "fixture-empty-completion", "no-index", "reflect-overproduces"])
+                        "fixture-corrupt", "fixture-miss", "fixture-empty-completion", "no-index", "reflect-overproduces", "partial-write-failure", "partial-write-failure"])
     if fault and fault.startswith("fixture"):
         backend = "llm"
         cfg["t3"]["reflection"]["backend"] = "llm"
@@ -87,7 +89,7 @@ def gen_case(rng):
             "fault": fault, "exc": rng.randrange(len(EXCS)), "agent": rng.choice(["A", "B", "Ünï"]), "turn": rng.choice([0, 0, 1, 7, 12, "0", "t7"]),
             "text": rng.choice(["hello world", "moon river cat", "", "!!!", "tree " * 50, "moon\u00a0river\u3000cat\u2003tree"]), "completion": rng.choice(["short summary", "multi\nline\tcompletion with   spaces", "w " * 400, "ünï ✓"]),
             "clock2": {"pc_step": rng.choice([0.0, 1e-6]), "wall": rng.choice([1.0e9, 3.0e9]), "tz": rng.choice([None, "JST-9", "PST8PDT", "UTC0", "NST3:30"])},
-            "now_ms_float": rng.random() < 0.2, "timeout_over_ms": rng.choice([500.0, 500.0, 0.25, 0.375, 0.01, 0.49, 1.0])}
+            "fail_at": rng.choice([1, 1, 2, 3]), "now_ms_float": rng.random() < 0.2, "timeout_over_ms": rng.choice([500.0, 500.0, 0.25, 0.375, 0.01, 0.49, 1.0])}
 
 
 def expected_id(agent, turn, slot, text):
@@ -154,8 +156,16 @@ def run_once(case, allow, fixture_lines, sess, vclock=None, record_key=None, the
             env = TurnEnv(cfg, copy.deepcopy(case["world"]))
         except Exception as ex:
             return {"rejected": str(ex)[:120]}
+        if fault and fault.startswith("fixtures-disabled") and case["backend"] == "llm":
+            # on the live configuration (the validator refuses this combination in a file; the engine's functions take
+            # plain mappings and the repository's own tests hand them over unvalidated)
+            if fault.endswith("false"):
+                env.cfg["t3"]["llm"]["fixtures"]["enabled"] = False
+            else:
+                env.cfg["t3"]["llm"]["fixtures"].pop("enabled", None)
         with env:
-            idx = RecIndex(fail_at=1 if fault == "index-add-raises" else None, exc=EXCS[case["exc"]])
+            # "partial-write-failure": several entries offered (see reflect-overproduces), the index refuses one of them
+            idx = RecIndex(fail_at=1 if fault == "index-add-raises" else (case.get("fail_at", 1) if fault == "partial-write-failure" else None), exc=EXCS[case["exc"]])
             if fault != "no-index":
                 env.state["memory_index"] = idx
             calls = {"reflect": 0, "write": 0, "telemetry": 0, "keys": []}
@@ -169,7 +179,7 @@ def run_once(case, allow, fixture_lines, sess, vclock=None, record_key=None, the
                 if fault == "reflect-raises":
                     raise EXCS[case["exc"]]("scripted reflect failure")
                 res_ = real_reflect(bundle, cfg_root, embedder=embedder)
-                if fault == "reflect-overproduces":
+                if fault in ("reflect-overproduces", "partial-write-failure"):
                     # a backend that hands back more entries than the ops cap allows (the writer enforces the cap itself)
                     try:
                         base_ = list(res_.memory_entries or [])
@@ -227,7 +237,7 @@ def run_once(case, allow, fixture_lines, sess, vclock=None, record_key=None, the
                               "ts": [e.get("ts") for e in idx.adds[n_adds:]], "ids": [e.get("id") for e in idx.adds[n_adds:]], "texts": [str(e.get("text", "")) for e in idx.adds[n_adds:]],
                               "now_iso": iso_from_ms(later), "turn": t2n}
             logs = env.logs()
-            return {"r": r, "calls": calls, "adds": idx.adds, "attempts": idx.attempts, "refl_lines": env.records("t3_reflection.jsonl"),
+            return {"r": r, "calls": calls, "adds": idx.adds, "slots": idx.slots, "attempts": idx.attempts, "refl_lines": env.records("t3_reflection.jsonl"),
                     "canon": {k: env.canon(v) for k, v in logs.items() if k in CANON}, "line": r["line"], "now_iso": iso_from_ms(NOW_MS), "cfg": env.cfg, "second": second}
     finally:
         import shutil
@@ -277,7 +287,10 @@ def check_case(case, sess: Session):
         sess.count("fault:" + fault)
     if len(o["adds"]) > max(cap, 0):
         sess.violation("more-entries-than-ops-cap", tcase, {"adds": len(o["adds"]), "cap": cap})
-    for slot, ep in enumerate(o["adds"]):
+    for j_, ep in enumerate(o["adds"]):
+        slot = o["slots"][j_]  # the entry's position among the entries offered to the index (an earlier one may have been refused)
+        if slot != j_:
+            sess.count("entries_written_after_an_earlier_one_was_refused")
         toks = len(str(ep.get("text", "")).split())
         if toks > lim:
             sess.violation("summary-exceeds-token-limit", tcase, {"tokens": toks, "limit": lim, "text": str(ep.get("text"))[:80]})
@@ -348,6 +361,20 @@ def check_case(case, sess: Session):
             sess.count("followup:fixture-back-after-failure")
             if [e.get("id") for e in back["adds"]] != [e.get("id") for e in o["adds"]]:
                 sess.violation("entries-differ-after-an-intermediate-failure", tcase, {"first": [e.get("id") for e in o["adds"]], "again": [e.get("id") for e in back["adds"]]})
+    # --- the fixture source switched off in the configuration (file and matching entry in place): the LLM backend has no
+    #     source, which is an error of the reflection step: nothing is written
+    if fault is None and case["backend"] == "llm" and calls["keys"] and o["adds"]:
+        for how_ in ("false", "absent"):
+            offd = run_once(dict(case, fault="fixtures-disabled:" + how_), True, [{"prompt_hash": k, "completion": case["completion"]} for k in calls["keys"]], sess)
+            if "rejected" in offd:
+                sess.count("fixtures_disabled_cfg_rejected")
+                continue
+            if offd["r"]["exc"]:
+                sess.violation("reflection-path-aborts-turn:" + offd["r"]["exc_type"], tcase, offd["r"]["tb"][-300:])
+                continue
+            sess.count("followup:fixtures-switched-off")
+            if offd["adds"]:
+                sess.violation("wrote-although-the-fixture-source-is-switched-off", tcase, {"adds": len(offd["adds"]), "fixtures.enabled": how_})
     # --- twin with reflection off: canonical records and utterance equal
     off = run_once(case, False, None, sess)
     if "rejected" not in off and not off["r"]["exc"]:
@@ -482,6 +509,8 @@ def main(tier: str, seed: int):
     sess.require("reflection_off_twins_compared", 60)
     sess.require("clock_replays_compared", 15)
     sess.require("planner_pipeline_turns", 150)
+    sess.require("entries_written_after_an_earlier_one_was_refused", 5)
+    sess.require("followup:fixtures-switched-off", 5)
     sess.require("planner_requests_honoured", 20)
     sess.require("planner_turns_after_a_request_that_must_not_reflect", 15)
     for f in ("reflect-raises", "index-add-raises", "timeout", "fixture-missing", "fixture-miss"):
